@@ -263,4 +263,13 @@ example : anyOnInsertPath unionAltReq nv_K [.field [97], .index 3] = true ∧
     anyOnInsertPath unionAltReq nv_K [.field [99], .field [100], .index 2] = false ∧
     anyOnInsertPath optionalIdx nv_K [.field [99], .field [100], .index 2] = false := by decide
 
+/-- `merge_sound_partial`: `{a: bytes, *: integer} | {a: float, b: null}`. -/
+def nv_mA : Kind :=
+  (Kind.mk {} .none (.some (.mk (.cons [97] (Kind.mk { bytes := true } .none .none) .nil) (.exact (Kind.mk { integer := true } .none .none)))))
+def nv_mB : Kind :=
+  (Kind.mk {} .none (.some (.mk (.cons [97] (Kind.mk { float := true } .none .none) (.cons [98] (Kind.mk { null := true } .none .none) .nil)) (.exact (Kind.mk { undefined := true } .none .none)))))
+example : nv_mA.SortedK = true ∧ nv_mB.SortedK = true ∧ mergeClass nv_mA nv_mB = .none ∧
+    mem (.obj (.cons [97] (.bytes [120]) (.cons [122] (.int 1) .nil))) nv_mA = true ∧
+    mem (.obj (.cons [97] (.float 0) (.cons [98] .null .nil))) nv_mB = true := by decide
+
 end C19.W
